@@ -26,7 +26,10 @@ META = dict(
          "after the request line, after the first header, before the blank line, between head and body or inside the body (one "
          "deviation per fragmented request); all schedules with <= 2 deviations "
          "(quick; POST with N = 3 is left to the thorough tier) / <= 4 for N = 1 and the burst mode, <= 3 for N = 2 and "
-         "N = 3 (thorough). A second mode sends the N requests in one burst from a raw client socket (requests "
+         "N = 3 (thorough). A two-client mode connects two raw clients to one Valet: A "
+         "sends GET for (stream, fixed), (fixed, stream) or (fixed, fixed), B sends HEAD then GET (control: GET, GET) for fixed "
+         "responses; B's first request arrives before any one of the first 10 server passes of A's exchange (all 10 positions), "
+         "then both send their second request; each connection is judged by the same wire oracle. A burst mode sends the N requests in one burst from a raw client socket (requests "
          "pipelined on the wire) and enumerates the server-side short reads and every two-piece split of the burst at the same cut positions of each request. Required: nothing raises; the client gets exactly N "
          "responses, in request order, each carrying the request that caused it (rid, path) and exactly the body the app produced "
          "for that request, both when delivered and at the end of the run; the app is called once per request in order; the bytes "
@@ -234,6 +237,56 @@ def execute(ch, mode, kinds, method, part, states):
         return st
 
     viol = []
+    if mode == "two":
+        # two raw clients on one Valet: A asks for `kinds` (GET), B sends `method` requests for fixed responses; B's first
+        # request arrives before the P-th server pass of A's first exchange (choice), then both send their second request
+        policy.chunk_lengths = set()
+        reqs_a, reqs_b = plan(kinds, "GET"), plan(("fixed", "fixed"), method)
+        socks = {}
+        for name in ("A", "B"):
+            c = fn.socket(name=name)
+            c.menu = net.Menu()
+            if c.connect_ex(("127.0.0.1", PORT)) != 0:
+                raise core.BrokenCheck("fake connect failed")
+            socks[name] = c
+
+        def raw(rq):
+            head = "%s %s HTTP/1.1\r\nHost: 127.0.0.1:%d\r\n" % (rq["method"], rq["path"], PORT)
+            return head.encode() + b"\r\n"
+
+        def passes(n, at=None):
+            for step in range(n):
+                if step == at:
+                    socks["B"].send(raw(reqs_b[0]))
+                    sched.append("B")
+                try:
+                    valet.serviceAll()
+                except Exception as ex:
+                    viol.append(("raised|%s" % hh.exc_sig(ex), "Valet.serviceAll raised %r" % (ex,)))
+                    return False
+                ck.advance(0.01)
+                part.transitions += 1
+                states.add(hash(snap("S")))
+                sched.append("S")
+            return True
+
+        first = 10
+        socks["A"].send(raw(reqs_a[0]))
+        j = ch.choose(first, "B-sends-before-pass", 0, 1)
+        if passes(first, j):
+            socks["A"].send(raw(reqs_a[1]))
+            socks["B"].send(raw(reqs_b[1]))
+            sched.append("AB")
+            passes(8)
+        if not viol:
+            for name, rqs in (("A", reqs_a), ("B", reqs_b)):
+                peer = socks[name].peer
+                for kind, what in wire_verdict(bytes(peer.sent), rqs):
+                    viol.append(("%s|%s" % (name, kind), "connection %s (%s): %s"
+                                 % (name, ",".join("%s %s" % (r["method"], r["path"]) for r in rqs), what)))
+                if socks[name].peer_closed:
+                    viol.append(("%s|connection-closed" % name, "the server closed keep-alive connection %s" % name))
+        return viol, sched, fn
     if mode == "burst":
         cli = fn.socket(name="raw")
         cli.menu = net.Menu()
@@ -393,7 +446,9 @@ def work(cfg):
             viol, sched, fn = execute(ch, mode, kinds, method, p, states)
         p.traces += 1
         p.evaluations += 1
-        if not viol:
+        if not viol and mode == "two":
+            p.outcome("two clients ok")
+        elif not viol:
             ss = [s for s in fn.sockets if "<" in s.name]
             fr = [r["framing"] for r in hh.parse_responses(ss[0].sent, head_only(plan(kinds, method)))[0]] if ss else []
             p.outcome("%s ok, framing on the wire: %s" % (mode, ",".join(fr)))
@@ -407,7 +462,8 @@ def work(cfg):
                     group,
                     "%s %s schedule=%s" % (method, ",".join(kinds), sched_str(ch, sched)),
                     "%s, %s requests for response kinds %s, schedule %s: %s"
-                    % ("Patron+Valet" if mode == "patron" else "raw pipelined client+Valet", method, ",".join(kinds),
+                    % ("Patron+Valet" if mode == "patron" else "two raw clients A (GET) and B on one Valet; B's requests" if mode == "two"
+                       else "raw pipelined client+Valet", method, ",".join(kinds),
                        sched_str(ch, sched), what),
                     dict(mode=mode, method=method, kinds=list(kinds), choices=ch.choices,
                          service_order="".join(s[0] for s in sched),
@@ -466,6 +522,10 @@ def configs():
                     cfgs.append((len(cfgs), mode, method, kinds, b))
         for method, kinds in heads:
             cfgs.append((len(cfgs), mode, method, kinds, bound_for(mode, "GET", len(kinds))))
+    # two connections on one Valet: B's HEAD (control: GET) is parsed while A's response is in progress
+    for method in ("HEAD+GET", "GET"):
+        for kinds in (("stream", "fixed"), ("fixed", "stream"), ("fixed", "fixed")):
+            cfgs.append((len(cfgs), "two", method, kinds, 1))
     return cfgs
 
 
@@ -478,7 +538,7 @@ def run():
     bounds = {}
     for c in cfgs:
         bounds["%s %s N=%d" % (c[1], c[2], len(c[3]))] = c[4]
-    ck.coverage_extra = dict(deviation_bound=bounds, kind_sequences=len(set(c[3] for c in cfgs)), modes=["patron", "burst"],
+    ck.coverage_extra = dict(deviation_bound=bounds, kind_sequences=len(set(c[3] for c in cfgs)), modes=["patron", "burst", "two"],
                              methods=["GET", "POST", "HEAD mixed with GET / POST"], configurations=len(cfgs), liveness_window_calls_per_request=STEPS_PER_REQ)
     ck.assumptions = [
         "socket doubles (mc/net.py) instead of loopback sockets; a recv returns everything waiting or 1 byte; sends are accepted "
